@@ -13,7 +13,7 @@
 From Coq Require Import ZArith List Bool.
 From Low Require Import Lib.MachInt Lib.Bits Lib.BitSeq Lib.Bytes Lib.Pack_bw Model.Bitword Spec.BitwordSpec
   Lib.Lex Spec.BitwordSpecDirect Spec.BitwordSpecWiden
-  Proofs.BitwordProofs Proofs.BitwordToStr Proofs.BitwordFirstDiff Proofs.BitwordDirect Proofs.BitwordWiden.
+  Proofs.BitwordProofs Proofs.BitwordToStr Proofs.BitwordFirstDiff Proofs.BitwordDirect Proofs.BitwordWiden Proofs.BitwordLcp.
 Import ListNotations.
 Open Scope Z_scope.
 
@@ -187,6 +187,14 @@ Theorem C08_ToStr_any_in_range : forall n ws, widthP n -> words_in n ws ->
 Proof. exact spec_ToStr_any_in. Qed.
 Print Assumptions C08_ToStr_any_in_range.
 
+(** FirstDiff(a, b, 0, -1) = the length of the longest common prefix of the two word lists
+    (the use the trie code makes of it) *)
+Theorem C08_FirstDiff_lcp : forall n a b, widthP n ->
+  FirstDiff (newBW (Z.of_nat n)) a b 0 (-1) =
+  Some (zlen (lcp Z.eqb (FromStr (newBW (Z.of_nat n)) a) (FromStr (newBW (Z.of_nat n)) b))).
+Proof. exact FirstDiff_lcp. Qed.
+Print Assumptions C08_FirstDiff_lcp.
+
 (** * non-vacuity *)
 
 (** the four widths satisfy the hypothesis; a string with high bits set *)
@@ -258,6 +266,8 @@ Example C08_widen_nonvacuous :
   FirstDiff (newBW 4) [0xa5] [0xa5] (-1) (-3) = Some (-3) /\
   FirstDiff (newBW 4) [0xa5] [] (-1) (-1) = None /\
   FirstDiff (newBW 4) [0xa5] [] 0 (-1) = Some 0 /\
+  lcp Z.eqb (FromStr (newBW 4) [0xa5; 0xff]) (FromStr (newBW 4) [0xa5; 0xf7; 0x00]) = [0xa; 5; 0xf] /\
+  FirstDiff (newBW 4) [0xa5; 0xff] [0xa5; 0xf7; 0x00] 0 (-1) = Some 3 /\
   ToStr (newBW 4) [0x1f; 0x23; 0xff] = Some [0x13; 0xf0] /\
   ToStr (newBW 8) [0x1f; 0x23] = Some [0x1f; 0x23] /\
   spec_ToStr_any 4 [0x1f; 0x23; 0xff] = [0x13; 0xf0].
